@@ -2813,6 +2813,25 @@ void mmd_engine_update_metavalue_for_key(mmd_engine * e, const char * key, const
 		}
 	} else if (meta_end != 0) {
 		// We're appending metadata at the end
+
+		// If the block is closed by a YAML fence ('---'), the new key goes in front of it
+		size_t line_stop = meta_end;
+
+		while (line_stop && char_is_line_ending(e->dstr->str[line_stop - 1])) {
+			line_stop--;
+		}
+
+		size_t line_start = line_stop;
+
+		while (line_start && !char_is_line_ending(e->dstr->str[line_start - 1])) {
+			line_start--;
+		}
+
+		if ((line_start > 0) && (line_stop - line_start >= 3) &&
+				(strspn(&(e->dstr->str[line_start]), "-") >= line_stop - line_start)) {
+			meta_end = line_start;
+		}
+
 		if (!char_is_line_ending(e->dstr->str[meta_end - 1])) {
 			// The block ends at end of input without a newline
 			d_string_insert(e->dstr, meta_end, "\n");
